@@ -118,6 +118,11 @@ func precedingExits(list []ast.Stmt, upto ast.Node) (conds []Cond, complex bool)
 				conds = append(conds, Cond{Expr: s.Cond, Neg: true, FromExit: true})
 				continue
 			}
+			// nested form: `if a { if b { return } }` leaves exactly when a ∧ b
+			if e, ok := nestedExitCond(s); ok {
+				conds = append(conds, Cond{Expr: e, Neg: true, FromExit: true})
+				continue
+			}
 			if containsJump(s) {
 				complex = true
 			}
@@ -130,6 +135,47 @@ func precedingExits(list []ast.Stmt, upto ast.Node) (conds []Cond, complex bool)
 		}
 	}
 	return
+}
+
+// nestedExitCond: for `if a { S… }` without else whose body consists of statements that do not jump and of
+// if-statements of the same exit shape, the condition under which the statement leaves: a ∧ (b1 ∨ b2 ∨ …).
+func nestedExitCond(s *ast.IfStmt) (ast.Expr, bool) {
+	if s.Else != nil || s.Init != nil || s.Body == nil {
+		return nil, false
+	}
+	var inner ast.Expr
+	for _, st := range s.Body.List {
+		ifs, isIf := st.(*ast.IfStmt)
+		if !isIf {
+			if containsJump(st) {
+				return nil, false
+			}
+			continue
+		}
+		var e ast.Expr
+		switch {
+		case ifs.Else == nil && ifs.Init == nil && terminates(ifs.Body):
+			e = ifs.Cond
+		default:
+			ne, ok := nestedExitCond(ifs)
+			if !ok {
+				if containsJump(ifs) {
+					return nil, false
+				}
+				continue
+			}
+			e = ne
+		}
+		if inner == nil {
+			inner = e
+		} else {
+			inner = &ast.BinaryExpr{X: &ast.ParenExpr{X: inner}, Op: token.LOR, Y: &ast.ParenExpr{X: e}}
+		}
+	}
+	if inner == nil {
+		return nil, false
+	}
+	return &ast.BinaryExpr{X: &ast.ParenExpr{X: s.Cond}, Op: token.LAND, Y: &ast.ParenExpr{X: inner}}, true
 }
 
 func terminates(b *ast.BlockStmt) bool {
